@@ -4047,6 +4047,10 @@ validate_trait_complex(
                         > 0)) {
                     goto done;
                 }
+                /* If the instance check itself failed, this alternative does
+                   not match; don't leave its exception set while the
+                   remaining alternatives are tried. */
+                PyErr_Clear();
                 break;
             }
             case 2: /* Self type check: */
